@@ -44,7 +44,16 @@ def run_cases(report, group, progs, cases, modules=None, model=True, nbins=8):
             lines.append(o); pids.append(c.pid)
         spans.append((a, len(lines)))
     impl = [canon_iters(x) for x in tieb.run_impl(bins, lines, pids)]
-    mod = [canon_iters(x) for x in core.run_model(lines)] if model else None
+    mod = None
+    if model:
+        # cases marked `no_model` (too large for the executable model) are not sent to the Lean driver
+        skip = set()
+        for c, (a, b) in zip(cases, spans):
+            if c.meta.get("no_model"): skip.update(range(a, b))
+        keep = [i for i in range(len(lines)) if i not in skip]
+        mo = [canon_iters(x) for x in core.run_model([lines[i] for i in keep])]
+        mod = ["<not modelled>"] * len(lines)
+        for i, o in zip(keep, mo): mod[i] = o
     return [(impl[a:b], mod[a:b] if mod is not None else None) for a, b in spans], (impl[:len(progs)], mod[:len(progs)] if mod else None)
 
 
